@@ -139,6 +139,7 @@ pub fn scenarios(thorough: bool) -> Vec<Scenario> {
         sc.track = true;
         sc.key_opts.heads = true;
     }
+    v.extend(cross_scenarios(thorough));
     v
 }
 
